@@ -127,6 +127,14 @@ def single_file_cases(depth=4, names=NAMES):
                 items[pos:pos] = blk
             else:  # nested inside a group that every platform takes
                 items[pos:pos] = [["chain", [["if", ["const", 1], blk]], None]]
+        if draw(st.integers(0, 3)) == 0:
+            # a group that is always skipped may hold conditionals with a malformed operand (compilers
+            # only track the directive names there) and stray backslashes
+            junk = draw(st.sampled_from([[["unknown", "ifdef", "(X)"], ["code", 1], ["unknown", "endif", ""]],
+                                         [["unknown", "ifndef", "0"], ["code", 1], ["unknown", "else", ""], ["code", 1], ["unknown", "endif", ""]],
+                                         [["unknown", "ifdef", ""], ["unknown", "endif", ""]]]))
+            pos = draw(st.integers(0, len(items)))
+            items[pos:pos] = [["chain", [["if", ["const", 0], junk]], draw(st.sampled_from([None, [["code", 1]]]))]]
         fname = draw(st.sampled_from(["main.c", "main.cpp", "src/main.c", "main.h"]))
         nplat = draw(st.integers(1, 3))
         plats = {}
